@@ -58,6 +58,7 @@ type (
 		Body []Stmt
 	}
 	Throw struct{ Sym string }
+	Defer struct{ E Expr } // defer println(E)
 	Do    struct {
 		Body     []Stmt
 		CatchSym string // "" = no catch
@@ -193,6 +194,8 @@ func (p *printer) stmt(ind int, s Stmt) {
 		p.emit(ind, "end")
 	case Throw:
 		p.emit(ind, "throw "+v.Sym)
+	case Defer:
+		p.emit(ind, "defer println("+p.expr(v.E)+")")
 	case Do:
 		p.emit(ind, "do")
 		p.stmts(ind+1, v.Body)
@@ -278,6 +281,8 @@ func describe(s Stmt) string {
 		return "while"
 	case Throw:
 		return "throw"
+	case Defer:
+		return "defer"
 	case Do:
 		return "do"
 	}
@@ -378,6 +383,8 @@ func (ed *editor) stmt(s Stmt, where string) Stmt {
 		return While{ed.e(v.C, "condition"), ed.list(v.Body, "while")}
 	case Throw:
 		return v
+	case Defer:
+		return Defer{ed.e(v.E, "argument")}
 	case Do:
 		return Do{ed.list(v.Body, "do"), v.CatchSym, ed.list(v.Catch, "catch"), ed.list(v.Finally, "finally"), v.HasFin}
 	}
@@ -459,6 +466,8 @@ func declared(p *Prog) []scopeNames {
 				case ExprS:
 					we(v.E)
 				case Print:
+					we(v.E)
+				case Defer:
 					we(v.E)
 				case Ret:
 					we(v.E)
@@ -544,6 +553,8 @@ func rename(p *Prog, scope int, from, to string) *Prog {
 				out = append(out, ExprS{re(v.E)})
 			case Print:
 				out = append(out, Print{re(v.E)})
+			case Defer:
+				out = append(out, Defer{re(v.E)})
 			case Ret:
 				out = append(out, Ret{re(v.E)})
 			case RetIf:
